@@ -1,15 +1,15 @@
 CONSTANTS
   NC = 1
-  NL = 1
-  WRun = {}
-  WTerm = {}
+  NL = 0
+  WRun = {1}
+  WTerm = {2}
   QCap = 4
   MaxStart = 1
   ParentCancels = TRUE
   Presents = {{"start","run","stop"}}
-  RunModes = {"any","idle","timer"}
+  RunModes = {"any"}
   GuardNilCancel = @@GUARD@@
 SPECIFICATION Spec
 INVARIANTS TypeOK ChainedHistory SwitchNeverFails FnOrder RunOnlyAfterStart StopFnIffStarted CtxCancelledBeforeStopFn StopFnGetsRunError ContextReleased WaitersExact NoDoubleClose FirstErrorWins ListenerOrder NotifierNeverBlocks @@NONIL@@ 
-PROPERTIES LegalTransitions EventuallyTerminal StopLeadsToTerminal ListenersDrain
+PROPERTIES EventuallyTerminal WaitersReturn
 CHECK_DEADLOCK FALSE
